@@ -877,7 +877,7 @@ fn dump_crate<'tcx>(tcx: TyCtxt<'tcx>) -> J {
                         }
                         for op in ops {
                             if let Operand::Constant(c) = op {
-                                let mut f: Vec<(&str, J)> = vec![("text", J::s(&format!("{:?}", c.const_)))];
+                                let mut f: Vec<(&str, J)> = vec![("text", J::s(&format!("{:?}", c.const_))), ("disp", J::s(&format!("{}", c.const_)))];
                                 if let mir::Const::Unevaluated(uv, _) = c.const_ {
                                     f.push(("name", J::s(&dpath(tcx, uv.def))));
                                 }
